@@ -228,12 +228,41 @@ func execC18(seg []Ev) []Ev {
 			}
 		}
 		e["list"] = c.list()
+		// a list that GetAll returned earlier is the caller's: later operations on the collection do not change it
+		if c != nil {
+			if kpColl == nil {
+				kpColl = &keeper{}
+			}
+			kpColl.check(e)
+			if c.kind == "variables" {
+				all := c.vars.GetAll()
+				kpColl.keep("list returned by GetAll at an earlier step", func() string {
+					s := ""
+					for _, v := range all {
+						s += v.Name() + ","
+					}
+					return s
+				})
+			} else {
+				all := c.fns.GetAll()
+				kpColl.keep("list returned by GetAll at an earlier step", func() string {
+					s := ""
+					for _, f := range all {
+						s += f.Name() + ","
+					}
+					return s
+				})
+			}
+		}
 		out = append(out, e)
 	}
+	kpColl = nil
 	return out
 }
 
 // collKey: the key under which the collections compare names (the host's upper-case mapping)
+var kpColl *keeper
+
 func collKey(name string) string { return strings.ToUpper(name) }
 
 // nameKey: the same comparison written in lower case, as the generated syntax trees spell their keys
@@ -325,6 +354,23 @@ func execNames(in Ev) Ev {
 	}
 	e["names"] = names
 	e["after"] = snapshot()
+	// the automatic variables are separate objects: giving one of them a value in place leaves the others as they were
+	if vs := calc.DefaultVariables().GetAll(); len(vs) >= 2 {
+		rest := func() string {
+			s := ""
+			for _, v := range vs[:len(vs)-1] {
+				s += fmt.Sprint(v.Name(), "=", v.Value().Type(), ":", v.Value().String(), ";")
+			}
+			return s
+		}
+		then := rest()
+		last := vs[len(vs)-1] // (the automatic variables are at the end)
+		saved := last.Value().Clone()
+		guarded(func() { last.Value().SetAsString("set in place") })
+		now := rest()
+		guarded(func() { last.Value().Assign(saved) })
+		e["held_what"], e["held_then"], e["held_now"] = "values of the other variables after one variable's value was changed in place", short(then), short(now)
+	}
 	return e
 }
 
